@@ -674,11 +674,73 @@ Proof.
   cbn [with_sizes wsize maxi]. split; assumption.
 Qed.
 
+Lemma set_queue_sizes p q d : wsize (set_queue p q d) = wsize p /\ maxi (set_queue p q d) = maxi p.
+Proof. unfold set_queue. destruct (q =? QWINDOW); [split; reflexivity|]. destruct (q =? QPROBATION); split; reflexivity. Qed.
+
+Lemma move_to_sizes p id q : wsize (move_to p id q) = wsize p /\ maxi (move_to p id q) = maxi p.
+Proof.
+  unfold move_to.
+  match goal with |- wsize (set_queue ?a ?b ?c) = _ /\ _ => destruct (set_queue_sizes a b c) as [A B]; rewrite A, B end.
+  unfold set_queue_of, set_node, with_store. cbn [wsize maxi].
+  match goal with |- wsize (set_queue ?a ?b ?c) = _ /\ _ => destruct (set_queue_sizes a b c) as [A' B']; rewrite A', B' end.
+  split; reflexivity.
+Qed.
+
+Lemma increase_loop_sizes fuel : forall p quota,
+  wsize (fst (increase_loop fuel p quota)) = wsize p /\ maxi (fst (increase_loop fuel p quota)) = maxi p.
+Proof.
+  induction fuel as [|f IH]; intros p quota; cbn [increase_loop]; [split; reflexivity|].
+  assert (Hc : forall c (isprob : bool),
+    wsize (fst (let w := pweight (node_of p c) in
+                 if quota <? w then (p, quota) else
+                 let p1 := move_to p c QWINDOW in
+                 let p2 := with_sizes p1 (wsize p1) (wrapu (wwsize p1 + w)) (if isprob then pwsize p1 else wrapu (pwsize p1 - w)) in
+                 increase_loop f p2 (quota - w))) = wsize p /\
+    maxi (fst (let w := pweight (node_of p c) in
+                 if quota <? w then (p, quota) else
+                 let p1 := move_to p c QWINDOW in
+                 let p2 := with_sizes p1 (wsize p1) (wrapu (wwsize p1 + w)) (if isprob then pwsize p1 else wrapu (pwsize p1 - w)) in
+                 increase_loop f p2 (quota - w))) = maxi p).
+  { intros c isprob. cbv zeta. destruct (quota <? pweight (node_of p c)); [split; reflexivity|].
+    match goal with |- context [increase_loop f ?q ?w] => destruct (IH q w) as [A B]; rewrite A, B end.
+    cbn [with_sizes wsize maxi]. apply move_to_sizes. }
+  destruct (dq_head (qprob p)) as [c|].
+  - destruct (quota <? pweight (node_of p c)).
+    + destruct (dq_head (qprot p)) as [c2|]; [apply (Hc c2 false)|split; reflexivity].
+    + apply (Hc c true).
+  - destruct (dq_head (qprot p)) as [c2|]; [apply (Hc c2 false)|split; reflexivity].
+Qed.
+
+Lemma decrease_loop_sizes fuel : forall p quota,
+  wsize (fst (decrease_loop fuel p quota)) = wsize p /\ maxi (fst (decrease_loop fuel p quota)) = maxi p.
+Proof.
+  induction fuel as [|f IH]; intros p quota; cbn [decrease_loop]; [split; reflexivity|].
+  destruct (dq_head (qwin p)) as [c|]; [|split; reflexivity]. cbv zeta.
+  destruct (quota <? pweight (node_of p c)); [split; reflexivity|].
+  match goal with |- context [decrease_loop f ?q ?w] => destruct (IH q w) as [A B]; rewrite A, B end.
+  cbn [with_sizes wsize maxi]. apply move_to_sizes.
+Qed.
+
+Lemma pol_climb_adj_sizes adj p : wsize (fst (pol_climb_adj adj p)) = wsize p /\ maxi (fst (pol_climb_adj adj p)) = maxi p.
+Proof.
+  unfold pol_climb_adj. destruct (pol_climb_sizes p) as [D1 D2]. unfold pol_climb in D1, D2.
+  destruct (adj =? 0); [split; assumption|]. destruct (adj >? 0).
+  - unfold pol_increase_window. destruct (pmax (pol_demote p) =? 0); [split; assumption|]. cbv zeta.
+    match goal with |- context [increase_loop 1000 (pol_demote ?q) ?w] =>
+      destruct (increase_loop_sizes 1000 (pol_demote q) w) as [A B]; destruct (pol_climb_sizes q) as [C1 C2]; unfold pol_climb in C1, C2;
+      destruct (increase_loop 1000 (pol_demote q) w) as [p3 quota] end.
+    cbn [fst with_maxima wsize maxi] in *. rewrite A, B, C1, C2. cbn [with_maxima wsize maxi]. split; assumption.
+  - unfold pol_decrease_window. destruct (wmax (pol_demote p) <=? 1); [split; assumption|]. cbv zeta.
+    match goal with |- context [decrease_loop 1000 ?q ?w] =>
+      destruct (decrease_loop_sizes 1000 q w) as [A B]; destruct (decrease_loop 1000 q w) as [p2 quota] end.
+    cbn [fst with_maxima wsize maxi] in *. rewrite A, B. split; assumption.
+Qed.
+
 (* C04: a maintenance run that starts with no task in flight (everything recorded is in the write buffer)
    ends with the total weight of the entries linked in the policy at most the maximum (or zero) *)
-Theorem maintenance_restores_bound hashf cur rnd now m :
+Theorem maintenance_restores_bound hashf cur rnd now adj m :
   MI m (wbuf m) ->
-  let m' := fst (fst (fst (m_maintenance hashf cur rnd now m))) in
+  let m' := fst (fst (fst (m_maintenance hashf cur rnd now adj m))) in
   MI m' [] /\ wbuf m' = [] /\ (wsize (pol m') <= maxi (pol m') \/ wsize (pol m') = 0).
 Proof.
   intros HM. change (wbuf m) with ([] ++ wbuf m) in HM. unfold m_maintenance.
@@ -703,19 +765,19 @@ Proof.
   pose proof (fold_wheel_delete_pol ids (with_pol m3 p)) as (A & B & C & _). cbv zeta in A, B, C.
   set (m4 := fold_left (fun mm id => if m_expire mm then with_whl mm (wheel_delete (whl mm) id) else mm) ids (with_pol m3 p)) in *.
   cbv zeta. rewrite B. cbn [m_evict with_pol]. rewrite He3. cbn [fst].
-  destruct (pol_climb_sizes (pol m4)) as [Sw Sm].
-  split; [split; [cbn [m_evict with_pol]; rewrite B; exact He3|cbn [pol with_pol]; apply PIX_pol_climb; rewrite A; exact H4]|].
+  destruct (pol_climb_adj_sizes adj (pol m4)) as [Sw Sm].
+  split; [split; [cbn [m_evict with_pol]; rewrite B; exact He3|cbn [pol with_pol]; apply PIX_pol_climb_adj; rewrite A; exact H4]|].
   split; [cbn [wbuf with_pol]; rewrite C; exact Ew3|].
   cbn [pol with_pol]. rewrite Sw, Sm, A. exact Hb.
 Qed.
 
 (* over all event lists: after any maintenance run that starts with nothing in flight, the system is
    quiescent and the total weight linked in the policy is at most the maximum (or zero) *)
-Theorem bound_after_maintenance hashf evs expire weighted cur rnd now :
+Theorem bound_after_maintenance hashf evs expire weighted cur rnd now adj :
   run_ok hashf (sys0 expire weighted) evs ->
   let s := fold_left (sys_step hashf) evs (sys0 expire weighted) in
   sfl s = [] ->
-  let s' := sys_step hashf s (EMaint cur rnd now) in
+  let s' := sys_step hashf s (EMaint cur rnd now adj) in
   let p := pol (sm s') in
   pend s' = [] /\
   wsize p = wrapu (sum_weights p (qwin p ++ qprob p ++ qprot p)) /\
@@ -725,7 +787,7 @@ Proof.
   intros Hok s Hfl s' p.
   pose proof (SI_run hashf evs (sys0 expire weighted) (SI_sys0 expire weighted) Hok) as HS. fold s in HS.
   unfold SI, pend in HS. rewrite Hfl in HS. cbn [app] in HS.
-  destruct (maintenance_restores_bound hashf cur rnd now (sm s) HS) as (HM & Hw & Hb). cbv zeta in HM, Hw, Hb.
+  destruct (maintenance_restores_bound hashf cur rnd now adj (sm s) HS) as (HM & Hw & Hb). cbv zeta in HM, Hw, Hb.
   assert (Hp : pend s' = []).
   { unfold s', pend. cbn [sys_step sm sfl]. rewrite Hfl, Hw. reflexivity. }
   split; [exact Hp|].
